@@ -54,6 +54,8 @@ for _q in ['hare', 'droop']:
     MODEL[f'qd_{_q}'] = (_simple('qd', quota=_q, accept_equal=True, on_overaward='error', prev=[], max=[]), 'dist')
     MODEL[f'quota_selector_{_q}'] = (_simple('quota_selector', quota=_q, accept_equal=True, on_more='select'), 'sel')
 MODEL['rel_threshold_5pc'] = (_simple('rel_threshold', threshold='1/20', accept_equal=True), 'sel')
+MODEL['rel_threshold_5pc_decimal'] = (_simple('rel_threshold', threshold='1/20', accept_equal=True), 'sel')
+MODEL['rel_threshold_5pc_float'] = (_simple('rel_threshold', threshold='3602879701896397/72057594037927936', accept_equal=True), 'sel')
 MODEL['rel_threshold_third'] = (_simple('rel_threshold', threshold='1/3', accept_equal=False), 'sel')
 MODEL['abs_threshold_2'] = (_simple('abs_threshold', threshold='2', accept_equal=True), 'sel')
 
